@@ -75,6 +75,28 @@ def run(ctx):
         ctx.instance(R)
         kind = allowed.get(f.short)
         if kind is None:
+            # another function may take the place of a registered line: it
+            # unregisters a line it was given (the one the duplicate search
+            # found) and then registers its receiver -- the shape of
+            # _substitute_virtual_line; the identifier stays held once
+            calls_ = [n for n in walk_no_nested(f.node)
+                      if isinstance(n, ast.Call) and
+                      isinstance(n.func, ast.Attribute) and
+                      n.func.attr in ("_register_line", "_unregister_line")]
+            calls_.sort(key=lambda n: (n.lineno, n.col_offset))
+            swap = len(calls_) == 2 and \
+                calls_[0].func.attr == "_unregister_line" and \
+                calls_[1].func.attr == "_register_line" and \
+                len(calls_[0].args) == 1 and len(calls_[1].args) == 1 and \
+                isinstance(calls_[0].args[0], ast.Name) and \
+                calls_[0].args[0].id in f.params[1:] and \
+                isinstance(calls_[1].args[0], ast.Name) and \
+                calls_[1].args[0].id == f.self_name and \
+                f.cls is not None and f.cls is not gfacls and \
+                gfacls not in f.cls.mro
+            if swap:
+                ctx.oblige(True)
+                continue
             ctx.oblige(False)
             ctx.violation(R, f.short, "self._gfa._register_line(...)",
                           "registers a line without the duplicate search of "
@@ -354,9 +376,16 @@ def run(ctx):
             prev = Abs(pc, label="prev", _gfa=Abs(gfacls, label="gfa"),
                        tagnames=[])
             ln = Abs(gc, label="new", items=[])
-            stubs = ["_initialize_references", "_substitute_virtual_line",
-                     "_set_existing_field",
-                     "_import_tags_of_previous_group_definition"]
+            # (the merge may call _substitute_virtual_line or spell out
+            # its steps; what those steps must be is C02's subject)
+            takeover = ["_substitute_virtual_line", "_import_references",
+                        "_import_field_references",
+                        "_update_field_backreferences",
+                        "_import_nonfield_references",
+                        "_update_nonfield_backreferences",
+                        "_register_line", "_unregister_line"]
+            stubs = ["_initialize_references", "_set_existing_field",
+                     "_import_tags_of_previous_group_definition"] + takeover
 
             class PH(SeqHooks):
                 def to_str(self, ev, v):
@@ -365,7 +394,7 @@ def run(ctx):
             same = pt.RECORD_TYPE == record_table(repo, gc).RECORD_TYPE
             if same:
                 ok = out[0] == "return" and \
-                    "_substitute_virtual_line" in [e[0] for e in out[2]]
+                    any(e[0] in takeover for e in out[2])
             else:
                 ok = out[0] == "raise" and \
                     str(out[1]).endswith("NotUniqueError") and \
